@@ -8,7 +8,7 @@ From Coq Require Import List NArith ZArith Bool.
 From Coq Require Import Init.Byte.
 From FFS Require Import Base.Res Base.Bytes Abi.Spec.
 From FFS Require Import Eip712.Util Eip712.Input Eip712.Numeric Eip712.Coerce Eip712.Model.
-From FFS Require Import Eip712.TotalProofsInput Eip712.TotalProofs Eip712.TotalProofsFuel Eip712.NumericProofs Eip712.SpellingProofs Eip712.SpellingDocProofs Eip712.SpellingDocOptProofs.
+From FFS Require Import Eip712.TotalProofsInput Eip712.TotalProofs Eip712.TotalProofsFuel Eip712.NumericProofs Eip712.SpellingProofs Eip712.SpellingDocProofs Eip712.SpellingDocOptProofs Eip712.ExactSpellingProofs.
 Import ListNotations.
 
 (* 1. Totality.  Any JSON tree offered as the document — decoded into a TypedData value and hashed,
@@ -75,9 +75,27 @@ Theorem C14_spellings_agree :
 Proof. exact spellings_agree_element. Qed.
 Print Assumptions C14_spellings_agree.
 
+(*    ... and not only the three canonical spellings: any text in the decimal / 0x-hex / scientific
+      grammars (every JSON number is) that denotes the integer z exactly — "1e77", "100.0", "1.5e1",
+      "-120E-1", "+0x1F" — whose exponent math/big expands ([exponent_moderate]: written exponent within
+      int64, effective exponent at most 10^6 in magnitude) gives, as a JSON number and as a string, the
+      word of z when z is in range and the range error when it is not: the outcome of the canonical
+      spellings of z.  (Round 3; the converse of C14_inexact_rejected.) *)
+Theorem C14_exact_spellings_agree :
+  forall H big_other allTypes fuel tn tc t (z : Z),
+    integer_member_type allTypes tn tc -> text_denotes t z -> exponent_moderate t ->
+    let r := if in_range (is_signed (e_base tc)) (e_m tc) z then Ok (word z)
+             else Err (if is_signed (e_base tc) then ETooLarge
+                       else if (z <? 0)%Z then ENegativeUnsigned else ETooLarge) in
+    encodeElement H big_other allTypes (S fuel) tn (GNumber t) = r /\
+    encodeElement H big_other allTypes (S fuel) tn (GString t) = r.
+Proof. exact exact_spelling_element. Qed.
+Print Assumptions C14_exact_spellings_agree.
+
 (*    ... and on whole documents: two documents with the same types and primary type whose domain and
       message differ only in how integers are spelled (JSON number / decimal string / 0x-hex string of
-      the same integer, relation [spelling]) at positions whose type — followed through struct members
+      the same integer, relation [spelling]; since round 3 also any other exact spelling with a moderate
+      exponent, e.g. 1e18 / "100.0") at positions whose type — followed through struct members
       and array elements of any nesting, as encodeElement follows it ([respelled]) — is an integer
       type, have the same digest (or fail alike). *)
 Theorem C14_spellings_agree_document :
@@ -159,6 +177,18 @@ Example C14_nonvacuous_document_any :
   opt_members_rel ts (members_of (tget EIP712Domain ts)) None None /\
   ex_m1 <> ex_m2 /\ ex_d1 <> ex_d2.
 Proof. exact respelled_documents_opt. Qed.
+
+(* non-vacuity of C14_exact_spellings_agree: 1e77 lies between 2^255 and 2^256 *)
+Example C14_nonvacuous_exact :
+  text_denotes (bs "1e77") (10 ^ 77) /\ exponent_moderate (bs "1e77") /\
+  in_range false 256 (10 ^ 77) = true /\ in_range true 256 (10 ^ 77) = false.
+Proof. exact ex_1e77. Qed.
+
+(* ... the document relation holds between the JSON number 1e77 and the 0x-hex string of 10^77 *)
+Example C14_nonvacuous_document_exact :
+  respelled [] 1 (bs "uint256") (GNumber (bs "1e77")) (GString (hex_text (10 ^ 77))) /\
+  GNumber (bs "1e77") <> GString (hex_text (10 ^ 77)).
+Proof. exact respelled_exact_example. Qed.
 
 (* the signer hypothesis of C14_total is satisfiable *)
 Example C14_signer_in_range_example : signer_in_range (fun _ => Some (1, 2 ^ 255, 27)%Z).
